@@ -91,6 +91,8 @@ def table_arrays(tbl):
     for ax in ("z", "lat", "lon"):
         if out[ax] is not None and nm[ax] not in ext:
             ext[nm[ax]] = out[ax]
+    if tbl.get("side"):
+        ext[tbl["side"]["name"]] = col(tbl["side"]["values"])  # (xarray only) a variable on a dimension of its own
     out["cols_ext"] = ext
     return out
 
